@@ -404,7 +404,7 @@ func vfIntersect(a, b []int) []int {
 func TestVerifC03Probes(t *testing.T) {
 	vfSetup(t)
 	c := ev.For("C03")
-	c.Rule("probes: per case one generated bridge (seed), 2-5 probe connections of generated classes (empty, random bytes up to 20000 and floods of 64 KiB .. 1 MiB, valid handshake truncated / extended / one bit flipped in representative, padding, mark or MAC, wrong hour +-2/3, wrong identity, byte-identical replay of an accepted handshake (whose genuine session has meanwhile carried a burst sized around the handshake's own length), low-order representatives with a valid MAC), each released in generated segments with the armed deadline optionally fired in between, ended by peer disconnect or by firing the virtual deadlines; the last connection goes to a second factory built from the same seed; oracle: accepted handshakes are remembered for at least the three hours they stay valid, zero bytes written, everything sent is consumed, close only after the last armed deadline fired (unless the peer left first), deadline armed before the first read, final deadline = accept + 30 s + d with one whole d in 0..59 common to all connections of the seed; non-trivial = any class other than 'empty'; fingerprint = class, parameters, plan")
+	c.Rule("probes: per case one generated bridge (seed), 2-5 probe connections of generated classes (empty, random bytes up to 20000 and floods of 64 KiB .. 1 MiB, valid handshake truncated / extended / one bit flipped in representative, padding, mark or MAC, wrong hour +-2/3, wrong identity, byte-identical replay of an accepted handshake, in half of the cases on a connection that was opened before the genuine client connected (whose genuine session has meanwhile carried a burst sized around the handshake's own length), low-order representatives with a valid MAC), each released in generated segments with the armed deadline optionally fired in between, ended by peer disconnect or by firing the virtual deadlines; the last connection goes to a second factory built from the same seed; oracle: accepted handshakes are remembered for at least the three hours they stay valid, zero bytes written, everything sent is consumed, close only after the last armed deadline fired (unless the peer left first), deadline armed before the first read, final deadline = accept + 30 s + d with one whole d in 0..59 common to all connections of the seed; non-trivial = any class other than 'empty'; fingerprint = class, parameters, plan")
 	c.Assume("deadline values are judged as intervals around the server's own clock reading (a few ms wide); cases measured on a stalled machine (> 0.5 s between accept and first deadline call) are discarded and counted")
 	for _, cl := range vfProbeClasses {
 		c.Floor("probe-"+cl+"/probe", 0.03)
@@ -435,6 +435,7 @@ func TestVerifC03Probes(t *testing.T) {
 			}
 		}
 		var prior []byte
+		var earlyConn *vfSrvConn
 		var cand []int
 		haveCand := false
 		nprobes := rapid.IntRange(2, 5).Draw(rt, "probes")
@@ -451,6 +452,12 @@ func TestVerifC03Probes(t *testing.T) {
 				fac = sf2
 			}
 			if class == "replay" && prior == nil {
+				if earlyConn == nil && rapid.Bool().Draw(rt, "proberConnectsFirst") {
+					if ec, eerr := vfOpenServerConn(sf); eerr == nil {
+						earlyConn = ec
+						defer ec.n.Shutdown()
+					}
+				}
 				hs, ok, resp0, cl0, sc0, err := vfAcceptOne(sf, br, ent, 0)
 				if sc0 != nil {
 					defer sc0.n.Shutdown()
@@ -496,9 +503,17 @@ func TestVerifC03Probes(t *testing.T) {
 			probe, avoid, desc := vfGenProbe(rt, class, br, ent, hour0, prior)
 			plan := vfGenPlan(rt, len(probe), avoid)
 			peerFirst := rapid.IntRange(0, 3).Draw(rt, "peerDisconnectsFirst") == 0
-			sc, err := vfOpenServerConn(fac)
-			if sc != nil {
-				defer sc.n.Shutdown()
+			var sc *vfSrvConn
+			var err error
+			if class == "replay" && fac == sf && earlyConn != nil {
+				// the prober connected BEFORE the genuine client did and sat idle
+				sc, earlyConn = earlyConn, nil
+				desc += " on a connection opened before the genuine one"
+			} else {
+				sc, err = vfOpenServerConn(fac)
+				if sc != nil {
+					defer sc.n.Shutdown()
+				}
 			}
 			if err != nil {
 				rt.Fatalf("VIOL[c03-wedge]: %v", err)
@@ -838,7 +853,7 @@ func TestVerifC04History(t *testing.T) {
 func TestVerifC04NearCapacity(t *testing.T) {
 	vfSetup(t)
 	c := ev.For("C04")
-	c.Rule("near-capacity: per fill level N in {1000, 86399, 86400, 100000, 102398} one fresh server factory: a real handshake A is accepted, N synthetic values are inserted into the factory's replay filter through its exported TestAndSet (so that N+1 < 102400 handshakes are remembered), then a byte-identical replay of A must be refused like invalid input and a fresh handshake B must be accepted; non-trivial = N >= 86399; fingerprint = N")
+	c.Rule("near-capacity: per fill level N in {1000, 86399, 86400, 100000, 102398} one fresh server factory: a real handshake A is accepted, N synthetic values are inserted into the factory's replay filter through its exported TestAndSet (so that N+1 < 102400 handshakes are remembered), then a byte-identical replay of A must be refused like invalid input and a fresh handshake B must be accepted; plus one mixed-ages case (three back-dated synthetic values that reach the TTL 2 s after a real handshake was accepted: after 3 s and an unrelated handshake the real one must still be refused as a replay); non-trivial = N >= 86399; fingerprint = N")
 	for idx, n := range []int{1000, 86399, 86400, 100000, 102398} {
 		br := vfBridge{ID: refobfs4.NewIdentity(vfEnt(0xc04c0+uint64(idx))(52)), Seed: vfEnt(0xc04d0 + uint64(idx))(24)}
 		ent := vfEnt(0xc04e0 + uint64(idx))
@@ -898,6 +913,65 @@ func TestVerifC04NearCapacity(t *testing.T) {
 			t.Fatalf("VIOL[c04-fresh-rejected]: a fresh handshake was not accepted with %d handshakes remembered (err %v)", n+2, err)
 		}
 		c.Case(ev.Hash("near-capacity", n), n >= 86399, []string{"near-capacity"}, func() any { return map[string]any{"unit": "near-capacity", "remembered": n + 1} })
+	}
+	// mixed ages: an older remembered value reaches the TTL while a younger
+	// accepted handshake is still inside it - only the old one may be forgotten.
+	// The old value is inserted back-dated (TTL minus 2 s ago) through the
+	// filter's exported API, the real handshake follows, then 3 s are waited.
+	{
+		br := vfBridge{ID: refobfs4.NewIdentity(vfEnt(0xc0510)(52)), Seed: vfEnt(0xc0511)(24)}
+		ent := vfEnt(0xc0512)
+		sf, err := vfServerFactory(br)
+		if err != nil {
+			t.Fatalf("VIOL[c04-serverfactory]: %v", err)
+		}
+		osf := sf.(*obfs4ServerFactory)
+		ttl := time.Duration(reflect.ValueOf(osf.replayFilter).Elem().FieldByName("ttl").Int())
+		hour0 := vfHourNow()
+		for i := 0; i < 3; i++ {
+			osf.replayFilter.TestAndSet(time.Now().Add(-ttl+2*time.Second+time.Duration(i)*time.Millisecond), detrand.Bytes(0xc0520+uint64(i), 16))
+		}
+		hs, accepted, _, _, sc0, err := vfAcceptOne(sf, br, ent, 0)
+		if sc0 != nil {
+			defer sc0.n.Shutdown()
+		}
+		if err != nil || !accepted {
+			if vfHourNow() != hour0 {
+				t.Skip("hour changed")
+			}
+			t.Fatalf("VIOL[c04-fresh-rejected]: a fresh handshake was not accepted (err %v)", err)
+		}
+		time.Sleep(3 * time.Second)
+		// something unrelated arrives (triggers the purge of the old values) ...
+		if _, acc, _, _, scx, err := vfAcceptOne(sf, br, ent, 0); scx != nil {
+			defer scx.n.Shutdown()
+			if err != nil || !acc {
+				if vfHourNow() != hour0 {
+					t.Skip("hour changed")
+				}
+				t.Fatalf("VIOL[c04-fresh-rejected]: a fresh handshake was not accepted after older entries expired (err %v)", err)
+			}
+		}
+		// ... and the younger handshake is replayed
+		sc, err := vfOpenServerConn(sf)
+		if sc != nil {
+			defer sc.n.Shutdown()
+		}
+		if err != nil {
+			t.Fatalf("VIOL[c04-wedge]: %v", err)
+		}
+		sc.n.Inject(wire.A, hs)
+		sc.n.ReleaseAll(wire.A)
+		if err := sc.n.WaitQuiescent(wire.B); err != nil {
+			t.Fatalf("VIOL[c04-wedge]: %v", err)
+		}
+		if w := sc.n.Written(wire.B); w != 0 || (sc.ep.SetupDone() && sc.ep.SetupErr() == nil) {
+			if vfHourNow() != hour0 {
+				t.Skip("hour changed")
+			}
+			t.Fatalf("VIOL[c04-accepted]: a handshake accepted 3 s ago was accepted again (server wrote %d bytes) after OLDER remembered values had reached the TTL of %v: expiry of old entries must not forget younger ones", w, ttl)
+		}
+		c.Case(ev.Hash("mixed-ages"), true, []string{"near-capacity", "mixed-ages"}, func() any { return map[string]any{"unit": "near-capacity", "case": "mixed ages"} })
 	}
 }
 
